@@ -48,6 +48,12 @@ pub struct Profile {
     /// the content of an inline element may begin / end with collapsible white space
     /// (<a href=x> the docs </a>)
     pub edge_space: bool,
+    /// some links have their own text as target (<a href="Aaaa">Aaaa</a>), an empty
+    /// target (href="") or a blank one (href=" ")
+    pub odd_hrefs: bool,
+    /// per-mille of inter-word spaces written as a non-ASCII white-space character
+    /// (no-break space, em space, ideographic space)
+    pub uni_space_permille: usize,
     /// text and inline elements written directly inside <table> / <tbody> / <tr>
     /// (the parser foster-parents them in front of the table)
     pub stray_in_table: bool,
@@ -87,6 +93,8 @@ impl Profile {
             href_controls: false,
             edge_space: false,
             stray_in_table: false,
+            odd_hrefs: false,
+            uni_space_permille: 0,
         }
     }
     pub fn no_tables(mut self) -> Profile {
@@ -303,7 +311,11 @@ impl<'a> DocGen<'a> {
             if !out.is_empty() {
                 // usually a space between items, sometimes none (adjacent markup)
                 if self.rng.chance(9, 10) {
-                    out.push(Node::Space);
+                    if self.rng.below(1000) < self.p.uni_space_permille {
+                        out.push(Node::Raw(self.rng.pick(&["\u{a0}", "\u{2003}", "\u{3000}", "\u{202f}", "\u{a0} "]).to_string()));
+                    } else {
+                        out.push(Node::Space);
+                    }
                 }
             }
             let r = self.rng.below(100);
@@ -324,7 +336,19 @@ impl<'a> DocGen<'a> {
                 let mut inner = self.inline_run(2, depth + 1);
                 self.in_link = false;
                 self.edge_spaces(&mut inner);
-                let href = self.href();
+                let mut href = self.href();
+                if self.p.odd_hrefs && self.rng.chance(1, 4) {
+                    match self.rng.below(3) {
+                        0 => {
+                            // a single word that is its own target
+                            let w = self.tok.unique(self.rng, &self.p.clone());
+                            href = w.clone();
+                            inner = vec![Node::Word(w)];
+                        }
+                        1 => href = String::new(),
+                        _ => href = " ".to_string(),
+                    }
+                }
                 let e = self.deco(El::with("a", inner).attr("href", &href));
                 out.push(e.node());
                 i += 2;
